@@ -640,6 +640,41 @@ theorem dvectApi_error_class (v : M3 K) (pbc : List Int) (a0 a1 : PosArg K) (e :
       refine ⟨h.symm, ?_⟩
       rcases pbc with _ | ⟨a, _ | ⟨b, _ | ⟨c, t⟩⟩⟩ <;> simp [apiFlags] at hf ⊢
 
+/-- REFUSAL CLASS ValueError, exactly (the second half of the sentence above, statement audit): with at least three
+    flags a ValueError is raised iff no argument is 0-d and the call is not accepted. -/
+theorem dvectApi_value_iff (v : M3 K) (pbc : List Int) (a0 a1 : PosArg K) (h3 : 3 ≤ pbc.length) :
+    dvectApi v pbc a0 a1 = .error "value" ↔
+      (a0 ≠ .scalar ∧ a1 ≠ .scalar ∧ ¬ ∃ r, dvectApi v pbc a0 a1 = .ok r) := by
+  constructor
+  · intro h
+    refine ⟨?_, ?_, ?_⟩
+    · intro hs
+      have := (dvectApi_type_iff v pbc a0 a1).mpr (Or.inl hs)
+      rw [h] at this; simp at this
+    · intro hs
+      have := (dvectApi_type_iff v pbc a0 a1).mpr (Or.inr hs)
+      rw [h] at this; simp at this
+    · rintro ⟨r, hr⟩; rw [h] at hr; cases hr
+  · rintro ⟨h0, h1, hno⟩
+    cases hd : dvectApi v pbc a0 a1 with
+    | ok r => exact absurd ⟨r, hd⟩ hno
+    | error e =>
+      rcases dvectApi_error_class v pbc a0 a1 e hd with he | he | ⟨_, hlt⟩
+      · subst he
+        rcases (dvectApi_type_iff v pbc a0 a1).mp hd with hs | hs
+        · exact absurd hs h0
+        · exact absurd hs h1
+      · rw [he]
+      · omega
+
+/-- non-vacuity of `dvectApi_value_iff` (both sides true: a rank-3 argument; both sides false: an accepted call). -/
+example :
+    let v : M3 ℚ := ⟨⟨4, 0, 0⟩, ⟨1, 4, 0⟩, ⟨1, 1, 4⟩⟩
+    dvectApi v [1, 0, 1] (.rows [⟨0, 0, 0⟩, ⟨1, 0, 0⟩]) (.rank3 2) = .error "value" ∧
+    dvectApi v [1, 0, 1] (.rows [⟨0, 0, 0⟩, ⟨1, 0, 0⟩]) (.rows [⟨0, 0, 0⟩, ⟨1, 0, 0⟩, ⟨2, 0, 0⟩]) = .error "value" ∧
+    dvectApi v [1, 0] (.rows [⟨0, 0, 0⟩]) (.rows [⟨3, 0, 0⟩]) = .error "undefined" := by
+  decide +kernel
+
 /-- only the TRUTH VALUE of the first three flags matters: `1`, `2`, `-1`, `np.True_` are the same flag, entries beyond
     the third are never read. -/
 theorem dvectApi_flag_forms (v : M3 K) (a b c a' b' c' : Int) (rest rest' : List Int) (a0 a1 : PosArg K)
@@ -898,14 +933,19 @@ theorem sysDvect_current (w : World K) (s : Nat) (v : Sys K) (hv : w.sysView s =
     w.sysDmag2 s s0 s1 = C02.sysDmag2 v.pos v.vects v.px v.py v.pz s0 s1 := by
   simp [World.sysDvect, World.sysDmag2, hv]
 
-/-- after ANY history of in-place changes, every row `System.dvect` returns is an admissible image (flags as they
-    are now) of the direct separation of two selected points under the cell as it is now, not longer than any of
-    the 27 candidates; and `System.dmag` returns the lengths of exactly these rows. -/
+/-- after ANY history of in-place changes (the statement holds for EVERY world `w'`, reachable or not: the history
+    hypothesis is not needed), every row `System.dvect` returns is `dvect` of a point SELECTED by `sel0` and a point
+    SELECTED by `sel1` from the positions the System holds now (statement audit: the two points used to be unconstrained
+    existentials), an admissible image (flags as they are now) of their direct separation under the cell as it is
+    now, not longer than any of the 27 candidates; the result is squeezed exactly when there is one row; and
+    `System.dmag` returns the lengths of exactly these rows. -/
 theorem sysDvect_history (w : World K) (ops : List (Op K)) (w' : World K) (_hrun : w.run ops = some w')
     (s : Nat) (s0 s1 : Sel K) (sq : Bool) (rows : List (V3 K)) (h : w'.sysDvect s s0 s1 = .ok (sq, rows)) :
     ∃ v, w'.sysView s = some v ∧
       w'.sysDmag2 s s0 s1 = .ok (sq, rows.map V3.normSq) ∧
-      ∀ r ∈ rows, ∃ p0 p1, (∃ n : Shift, n.admissible v.px v.py v.pz ∧ r = (p1 - p0) + latticeVec v.vects n) ∧
+      ∃ a b, select v.pos s0 = .ok a ∧ select v.pos s1 = .ok b ∧ sq = (rows.length == 1) ∧
+      ∀ r ∈ rows, ∃ p0 ∈ a, ∃ p1 ∈ b, r = dvect v.vects v.px v.py v.pz p0 p1 ∧
+        (∃ n : Shift, n.admissible v.px v.py v.pz ∧ r = (p1 - p0) + latticeVec v.vects n) ∧
         ∀ m : Shift, m.admissible v.px v.py v.pz → V3.normSq r ≤ V3.normSq ((p1 - p0) + latticeVec v.vects m) := by
   cases hv : w'.sysView s with
   | none => simp [World.sysDvect, hv] at h
@@ -914,10 +954,10 @@ theorem sysDvect_history (w : World K) (ops : List (Op K)) (w' : World K) (_hrun
     rw [e1] at h
     refine ⟨v, rfl, ?_, ?_⟩
     · rw [e2, sysDmag2_eq, h]; rfl
-    · obtain ⟨a, b, _, _, hd, _⟩ := sysDvect_rows v.pos v.vects v.px v.py v.pz s0 s1 sq rows h
+    · obtain ⟨a, b, ha, hb, hd, hsq⟩ := sysDvect_rows v.pos v.vects v.px v.py v.pz s0 s1 sq rows h
+      refine ⟨a, b, ha, hb, hsq, ?_⟩
       intro r hr
-      obtain ⟨p0, _, p1, _, _, him, hmin⟩ := dvectArr_rows v.vects v.px v.py v.pz a b rows hd r hr
-      exact ⟨p0, p1, him, hmin⟩
+      exact dvectArr_rows v.vects v.px v.py v.pz a b rows hd r hr
 
 /-- the module-level scalar distance with a Box OBJECT is, at any time, the length of the module-level separation
     with the same object (no memory of an earlier call or an earlier cell). -/
@@ -1058,6 +1098,26 @@ example :
       (fun w => w.sysDvect 0 (.idx 0) (.idx 1)) = some (.ok (true, [⟨1, 0, 0⟩])) := by
   decide +kernel
 
+/-- a history for the example below: two Systems hold Box 0, then `B.vects = …`. -/
+def auditOps : List (Op ℚ) := [.newBox ⟨⟨4, 0, 0⟩, ⟨0, 4, 0⟩, ⟨0, 0, 4⟩⟩ ⟨0, 0, 0⟩,
+  .newSys 0 true true true [⟨0, 0, 0⟩, ⟨3, 0, 0⟩], .newSys 0 true false false [⟨0, 0, 0⟩, ⟨0, 3, 0⟩, ⟨3, 3, 0⟩],
+  .boxVects 0 ⟨⟨2, 0, 0⟩, ⟨1, 5, 0⟩, ⟨0, 0, 4⟩⟩]
+
+/-- `World.boxVects_shared` / `World.pbcEdit_read` are not vacuous: two Systems hold Box 0; `B.vects = …` is read by both at
+    their next query, each with its own flags; an in-place flag edit of System 0 is not seen by System 1. -/
+example :
+    ((World.empty : World ℚ).run auditOps).map (fun w => w.sysDvect 0 (.idx 0) (.idx 1)) = some (.ok (true, [⟨1, 0, 0⟩])) ∧
+    ((World.empty : World ℚ).run auditOps).map (fun w => w.sysDvect 1 (.idx 0) (.list [1, 2]))
+      = some (.ok (false, [⟨0, 3, 0⟩, ⟨1, 3, 0⟩])) := by
+  decide +kernel
+
+example :
+    ((World.empty : World ℚ).run (auditOps ++ [.pbcEdit 0 0 false])).map (fun w => w.sysDvect 1 (.idx 0) (.idx 2))
+      = some (.ok (true, [⟨1, 3, 0⟩])) ∧
+    ((World.empty : World ℚ).run (auditOps ++ [.pbcEdit 0 0 false])).map (fun w => w.sysDvect 0 (.idx 0) (.idx 1))
+      = some (.ok (true, [⟨3, 0, 0⟩])) := by
+  decide +kernel
+
 /-! ### non-vacuity and sharpness (concrete rational instances) -/
 
 /-- a tilted cell. -/
@@ -1123,6 +1183,61 @@ example : dvect (⟨⟨81/20, 0, 0⟩, ⟨81/200, 81/20, 0⟩, ⟨0, -81/100, 81
 /-- tie-break: two candidates of equal length, the first in loop order is returned. -/
 example : dvect (⟨⟨2, 0, 0⟩, ⟨0, 2, 0⟩, ⟨0, 0, 2⟩⟩ : M3 ℚ) true true true ⟨0, 0, 0⟩ ⟨1, 1, 1⟩ = ⟨1, 1, 1⟩ ∧
     dvect (⟨⟨2, 0, 0⟩, ⟨0, 2, 0⟩, ⟨0, 0, 2⟩⟩ : M3 ℚ) true true true ⟨1, 1, 1⟩ ⟨0, 0, 0⟩ = ⟨-1, -1, -1⟩ := by
+  decide +kernel
+
+/-! ### statement audit: further non-vacuity instances -/
+
+/-- hypotheses of `search_radius_sound` / `search_radius_images` with a NON-zero shift: in the tilted example cell the
+    image through `(-1,0,0)` is shorter than the direct separation (and than the image through `(1,0,0)`), and the
+    conclusions hold with room to spare. -/
+example :
+    let d : V3 ℚ := exP1 - exP0
+    M3.det exBox.vects ≠ 0 ∧
+    V3.normSq (d + latticeVec exBox.vects (-1, 0, 0)) ≤ V3.normSq d ∧
+    V3.normSq (d + latticeVec exBox.vects (-1, 0, 0)) ≤ V3.normSq (d + latticeVec exBox.vects (1, 0, 0)) ∧
+    ((-1 : ℚ))^2 ≤ 4 * V3.normSq d * V3.normSq exBox.recip.r0 ∧
+    ((-2 : ℚ))^2 ≤ 4 * V3.normSq (d + latticeVec exBox.vects (1, 0, 0)) * V3.normSq exBox.recip.r0 := by
+  decide +kernel
+
+/-- hypotheses of `short_image_unique` / `short_image_admissible` (mixed periodicity `x, z` periodic, `y` free; `w² = 1`):
+    the shift `(-1,0,0)` respects the flags and its image is short; the shift `(-1,1,0)` does not respect them. -/
+example :
+    (1 : ℚ) * V3.normSq exBox.recip.r0 ≤ 1 ∧ (1 : ℚ) * V3.normSq exBox.recip.r2 ≤ 1 ∧
+    Shift.respects (-1, 0, 0) true false true ∧ ¬ Shift.respects (-1, 1, 0) true false true ∧
+    4 * V3.normSq ((exP1 - exP0) + latticeVec exBox.vects (-1, 0, 0)) < 1 ∧
+    dvect exBox.vects true false true exP0 exP1 = (exP1 - exP0) + latticeVec exBox.vects (-1, 0, 0) := by
+  refine ⟨by decide +kernel, by decide +kernel, ?_, ?_, by decide +kernel, by decide +kernel⟩
+  · simp [Shift.respects]
+  · simp [Shift.respects]
+
+/-- `dvectArr_many_to_one` (three points against one), `dvectArr_many_to_many` (two against two), `dvectArr_none_iff`
+    (two against three is refused), `displacement_atomwise` / `displacement_ok_iff` (two atoms, `'initial'`),
+    `displacement_refuses` (unknown keyword). -/
+example :
+    let v : M3 ℚ := ⟨⟨4, 0, 0⟩, ⟨1, 4, 0⟩, ⟨1, 1, 4⟩⟩
+    dvectArr v true true false [⟨0, 0, 0⟩, ⟨1, 0, 0⟩, ⟨0, 1, 0⟩] [⟨3, 0, 0⟩] = some [⟨-1, 0, 0⟩, ⟨2, 0, 0⟩, ⟨-1, -1, 0⟩] ∧
+    dvectArr v true true false [⟨0, 0, 0⟩, ⟨1, 0, 0⟩] [⟨3, 0, 0⟩, ⟨1, 3, 0⟩] = some [⟨-1, 0, 0⟩, ⟨-1, -1, 0⟩] ∧
+    dvectArr v true true false [⟨0, 0, 0⟩, ⟨1, 0, 0⟩] [⟨3, 0, 0⟩, ⟨1, 3, 0⟩, ⟨0, 0, 0⟩] = none ∧
+    displacement ⟨v, true, true, true, [⟨0, 0, 0⟩, ⟨1, 0, 0⟩]⟩ ⟨v, false, false, false, [⟨3, 0, 0⟩, ⟨1, 3, 0⟩]⟩ "initial"
+      = .ok [⟨-1, 0, 0⟩, ⟨-1, -1, 0⟩] ∧
+    displacement ⟨v, true, true, true, [⟨0, 0, 0⟩, ⟨1, 0, 0⟩]⟩ ⟨v, false, false, false, [⟨3, 0, 0⟩, ⟨1, 3, 0⟩]⟩ "final"
+      = .ok [⟨3, 0, 0⟩, ⟨0, 3, 0⟩] ∧
+    displacement ⟨v, true, true, true, [⟨0, 0, 0⟩]⟩ ⟨v, false, false, false, [⟨3, 0, 0⟩]⟩ "Final" = .error "value" := by
+  decide +kernel
+
+/-- `select_idx` (a negative index that wraps, an index past the end), `select_positions` third clause (an integer
+    `(1,3)` array all of whose entries are usable as indices of a three-atom system: taken as a fancy index, refused;
+    with an entry out of range: taken as ONE position), and the hypotheses of `sysDvect_rows` / `World.sysDvect_history`
+    with a two-row (unsqueezed) answer. -/
+example :
+    let atoms : List (V3 ℚ) := [⟨0, 0, 0⟩, ⟨3, 0, 0⟩, ⟨1, 1, 1⟩]
+    let v : M3 ℚ := ⟨⟨4, 0, 0⟩, ⟨0, 4, 0⟩, ⟨0, 0, 4⟩⟩
+    select atoms (.idx (-1)) = .ok [⟨1, 1, 1⟩] ∧ select atoms (.idx 3) = .error "type" ∧
+    select atoms (.idx (-4)) = .error "type" ∧
+    ([(2, 0, 1)].flatMap fun r : Int × Int × Int => [r.1, r.2.1, r.2.2]).mapM (wrapIndex atoms.length) = some [2, 0, 1] ∧
+    select atoms (.ipos [(2, 0, 1)]) = .error "value" ∧
+    select atoms (.ipos [(2, 0, 5)]) = .ok [⟨2, 0, 5⟩] ∧
+    sysDvect atoms v true true true (.idx 0) (.list [1, 2]) = .ok (false, [⟨-1, 0, 0⟩, ⟨1, 1, 1⟩]) := by
   decide +kernel
 
 end Atomman.C02
